@@ -163,9 +163,12 @@ for name in order:
 # wrong protocol id are rejected
 for kind in ("Request", "Response"):
     table = [(header(n)[0], n) for n in order if n.endswith(kind) and header(n)[0] is not None]
-    ct += [f"//@ func Unmarshal{kind}", "//@   params bytes", "//@   returns (res, err)",
+    ct += ["// (the decoder call is summarised per message type by the contract of lemmaDecode<T>, which is that call on a zero T)",
+           f"//@ func Unmarshal{kind}", "//@   params bytes", "//@   returns (res, err)",
+           "//@   attr summarize = encoding/UTO311-L0x.Unmarshal by lemmaDecode",
            "//@   ensures header:  err == nil ==> len(bytes) == 64 && bytes[0] == 0x17 && res != nil",
            "//@   ensures known:   err == nil ==> " + " && ".join(f'(bytes[1] == {c} ==> dyntype(res) == typeid("*messages.{n}"))' for c, n in table),
+           "//@   ensures code:    err == nil ==> " + " && ".join(f'(dyntype(res) == typeid("*messages.{n}") ==> bytes[1] == {c})' for c, n in table),
            "//@   ensures unknown: len(bytes) == 64 && " + " && ".join(f"bytes[1] != {c}" for c, n in table) + " ==> err != nil", ""]
 
 open(os.path.join(SRC, "lemmas_verif.go"), "w").write("\n".join(go))
